@@ -18,6 +18,7 @@ type C06Op struct {
 	Method int      `json:"method,omitempty"`
 	K      int      `json:"k,omitempty"`
 	Silent bool     `json:"silent,omitempty"` // the request's rules return nothing (empty result map)
+	StopOnErr bool  `json:"stop_on_err,omitempty"` // pass b=false to methods that take the policy flag
 }
 
 type C06Case struct {
@@ -70,7 +71,7 @@ func init() {
 				if len(keys) == 0 {
 					keys = []string{c06Keys[uni(t, fmt.Sprintf("onekey%d", i), 0, 2)]}
 				}
-				c.Ops = append(c.Ops, C06Op{Kind: "start", Keys: keys, Method: uni(t, fmt.Sprintf("m%d", i), 0, len(c06Methods)-1), Silent: pct(t, fmt.Sprintf("silent%d", i), 25)})
+				c.Ops = append(c.Ops, C06Op{Kind: "start", Keys: keys, Method: uni(t, fmt.Sprintf("m%d", i), 0, len(c06Methods)-1), Silent: pct(t, fmt.Sprintf("silent%d", i), 25), StopOnErr: pct(t, fmt.Sprintf("stoponerr%d", i), 30)})
 				out++
 			}
 			return c
@@ -91,6 +92,10 @@ func init() {
 			maxParked := 0
 			keySets := map[string]bool{}
 			checkReq := func(r *poolReq, step int) bool {
+				if h.gates.Parked(fmt.Sprint(r.id)) {
+					x.Violation("straggler", "step %d: request %d (%s) returned (and its instance went back to the pool) while one of its rules was still running", step, r.id, r.call)
+					return false
+				}
 				if r.kind == 1 && len(r.res.Map) > 0 {
 					x.Violation("foreign-result:silent", "step %d: request %d (%s) returns nothing from any rule, but its result map is %v", step, r.id, r.call.Method, sortedMap(r.res.Map))
 					return false
@@ -139,6 +144,9 @@ func init() {
 				case "start":
 					nextID++
 					call := fullCall(c06Methods[op.Method%len(c06Methods)], names, step)
+					if op.StopOnErr {
+						call.B = false
+					}
 					keys := append([]string{"who"}, op.Keys...)
 					kind := int64(0)
 					if op.Silent {
